@@ -3136,7 +3136,10 @@ class State:
     def _end_bet_collection(self) -> None:
         assert not self.bet_collection_status
 
-        if self.street is self.streets[-1] and self.street_return_count:
+        if (
+                self.street_index == self.street_count - 1
+                and self.street_return_count
+        ):
             assert self.street_return_index is not None
 
             self.street_index = self.street_return_index - 1
@@ -3146,7 +3149,10 @@ class State:
             self._begin_chips_pushing()
         elif self.street is None:
             self._begin_blind_or_straddle_posting()
-        elif self.street is self.streets[-1] or self.all_in_status:
+        elif (
+                self.street_index == self.street_count - 1
+                or self.all_in_status
+        ):
             self._begin_showdown()
         else:
             self._begin_dealing()
@@ -4230,7 +4236,7 @@ class State:
         assert self.opener_index is not None
 
         self.bring_in_status = (
-            self.street is self.streets[0]
+            self.street_index == 0
             and self.bring_in > 0
         )
         self.completion_status = self.bring_in_status
@@ -5133,7 +5139,10 @@ class State:
                 self.street_return_index = self.street_index + 1
                 self.street_return_count = self.runout_count - 1
 
-        if self.all_in_status and self.street is not self.streets[-1]:
+        if (
+                self.all_in_status
+                and self.street_index != self.street_count - 1
+        ):
             self._begin_dealing()
         else:
             self._begin_hand_killing()
@@ -5451,7 +5460,7 @@ class State:
             hole_cards = tuple(filter(None, cards))
             hole_card_statuses = (True,) * len(hole_cards)
 
-            if self.street is not self.streets[-1]:
+            if self.street_index != self.street_count - 1:
                 count = len(self.hole_cards[player_index]) - len(hole_cards)
                 hole_cards += tuple(
                     filterfalse(
@@ -5495,7 +5504,7 @@ class State:
         ):
             if self.all_in_status:
                 raise ValueError('The player must show when all-in.')
-            elif self.street is self.streets[-1]:
+            elif self.street_index == self.street_count - 1:
                 raise ValueError('A card is not shown in final showdown.')
             else:
                 raise ValueError(
